@@ -201,10 +201,9 @@ def discover (air : AirCfg) (given : Option Nat) (acm : Bool) (brs : Nat) : Opti
   | none =>
     if acm && air.active then (some ⟨0, true, false⟩, true)
     else
-      let acm' := if acm then false else acm
-      if air.a106 then (some ⟨0, false, false⟩, acm')
-      else if brs > 0 && air.f212 then (some ⟨1, false, true⟩, acm')
-      else (none, acm')
+      if air.a106 then (some ⟨0, false, false⟩, false)
+      else if brs > 0 && air.f212 then (some ⟨1, false, true⟩, false)
+      else (none, false)
 
 def boolBit (b : Bool) (v : Nat) : Nat := if b then v else 0
 
@@ -297,6 +296,69 @@ def didNadOk (d : DepOpts) : Bool :=
   (match d.did with | none => true | some v => decide (0 ≤ v ∧ v ≤ 255)) &&
   (match d.nad with | none => true | some v => decide (0 ≤ v ∧ v ≤ 255))
 
+/-- second half of `Initiator.activate` (after the ATR_RES is known) followed by the second half
+of `llc.activate` -/
+def initiatorSide (I : Side) (acm : Bool) (brs lri brty : Nat) (atrResB : Bytes) :
+    Py (Option (IHeld × Option LlcHeld)) :=
+  decodeAtrRes atrResB >>= fun r =>
+  let wt := r.to % 16
+  let held : IHeld :=
+    { miu := lrTable ((r.pp / 16) % 4) - 3 - boolBit I.dep.did.isSome 1 - boolBit I.dep.nad.isSome 1
+      wt := if wt < 15 then wt else 14
+      brty := brty, did := I.dep.did, nad := I.dep.nad, acm := acm, brs := brs, lri := lri }
+  llcLink I.llc r.gb >>= fun l => .ok (some (held, l))
+
+/-- second half of `Target.activate` (after `clf.listen` returned) followed by the second half
+of `llc.activate` -/
+def targetSide (T : Side) (rwt lrt brty : Nat) (activeMode : Bool) (atrReqB : Bytes) :
+    Py (Option (THeld × Option LlcHeld)) :=
+  decodeAtrReq atrReqB >>= fun q =>
+  let held : THeld :=
+    { miu := lrTable ((q.pp / 16) % 4) - 3 - boolBit (q.did > 0) 1
+      wt := rwt, brty := brty
+      did := if q.did > 0 then some q.did else none
+      acm := activeMode, lrt := lrt }
+  llcLink T.llc q.gb >>= fun l => .ok (some (held, l))
+
+/-- the Initiator got a link: it will send the first DEP_REQ that completes the Target's activation -/
+def linked : Py (Option (IHeld × Option LlcHeld)) → Bool
+  | .ok (some (_, some _)) => true
+  | _ => false
+
+def ppiOf (lri : Nat) (gbi : Bytes) (nad : Option Int) : Nat :=
+  lri * 16 + boolBit (!gbi.isEmpty) 2 + boolBit (optTruthy nad) 1
+
+def pptOf (lrt : Nat) (gbt : Bytes) : Nat := lrt * 16 + boolBit (!gbt.isEmpty) 2
+
+def didByte : Option Int → Nat
+  | none => 0
+  | some v => v.toNat
+
+/-- the exchange once both general byte strings are built and a target was found -/
+def handshake (I T : Side) (gbI gbT : Bytes) (f : Found) (acm : Bool) (nfcid3 rnd6 : Bytes) : Outcome :=
+  -- Initiator.activate: options
+  let gbi := gbI.take 48
+  let brs := clampI 0 2 I.dep.brs
+  let lri := clampI 0 3 I.dep.lri
+  let ppi := ppiOf lri gbi I.dep.nad
+  let didb := didByte I.dep.did
+  -- Target.activate: options
+  let gbt := gbT.take 47
+  let lrt := clampI 0 3 T.dep.lrt
+  let rwt := clampI 0 14 T.dep.rwt
+  let nfcid3t := nfcid3tOf rnd6
+  let atrResB := atrRes nfcid3t rwt (pptOf lrt gbt) gbt
+  let id3 := if f.fsearch then nfcid3t.take 8 ++ st else nfcid3
+  let atrReqB := atrReq id3 didb ppi gbi
+  let psl := decide (brs > f.brty)
+  let pslB := pslReq didb brs lri
+  let w1 : List (Nat × Bytes) := [(f.brty, atrReqB), (f.brty, atrResB)]
+  let w2 : List (Nat × Bytes) := if psl then [(f.brty, pslB), (f.brty, pslRes didb)] else []
+  let ini := initiatorSide I acm brs lri (if psl then brs else f.brty) atrResB
+  let tgt := if linked ini then targetSide T rwt lrt (if psl then pslBrty pslB else f.brty) f.activeMode atrReqB
+             else .ok none
+  ⟨w1 ++ w2, ini, tgt⟩
+
 /-- both devices run `llc.activate(mac, **dep options)` against each other -/
 def activate (air : AirCfg) (given : Option Nat) (I T : Side) (nfcid3 rnd6 : Bytes) : Outcome :=
   match encodeGb (sendPax I.llc), encodeGb (sendPax T.llc) with
@@ -306,50 +368,9 @@ def activate (air : AirCfg) (given : Option Nat) (I T : Side) (nfcid3 rnd6 : Byt
     if didNadOk I.dep then ⟨[], .ok none, .error e'⟩ else ⟨[], .error .assertion, .error e'⟩
   | .ok gbI, .ok gbT =>
     if ¬ didNadOk I.dep then ⟨[], .error .assertion, .ok none⟩ else
-    -- Initiator.activate: options
-    let gbi := gbI.take 48
-    let brs := clampI 0 2 I.dep.brs
-    let lri := clampI 0 3 I.dep.lri
-    let ppi := lri * 16 + boolBit (!gbi.isEmpty) 2 + boolBit (optTruthy I.dep.nad) 1
-    let didb : Nat := match I.dep.did with | none => 0 | some v => v.toNat
-    -- Target.activate: options
-    let gbt := gbT.take 47
-    let lrt := clampI 0 3 T.dep.lrt
-    let rwt := clampI 0 14 T.dep.rwt
-    let ppt := lrt * 16 + boolBit (!gbt.isEmpty) 2
-    let nfcid3t := nfcid3tOf rnd6
-    let atrResB := atrRes nfcid3t rwt ppt gbt
-    match discover air given I.dep.acm brs with
+    match discover air given I.dep.acm (clampI 0 2 I.dep.brs) with
     | (none, _) => ⟨[], .ok none, .ok none⟩
-    | (some f, acm) =>
-      let id3 := if f.fsearch then nfcid3t.take 8 ++ st else nfcid3
-      let atrReqB := atrReq id3 didb ppi gbi
-      let w1 : List (Nat × Bytes) := [(f.brty, atrReqB), (f.brty, atrResB)]
-      let psl := decide (brs > f.brty)
-      let pslB := pslReq didb brs lri
-      let w2 : List (Nat × Bytes) := if psl then [(f.brty, pslB), (f.brty, pslRes didb)] else []
-      let brtyI := if psl then brs else f.brty
-      let brtyT := if psl then pslBrty pslB else f.brty
-      let ini : Py (Option (IHeld × Option LlcHeld)) :=
-        decodeAtrRes atrResB >>= fun r =>
-        let wt := r.to % 16
-        let held : IHeld :=
-          { miu := lrTable ((r.pp / 16) % 4) - 3 - boolBit I.dep.did.isSome 1 - boolBit I.dep.nad.isSome 1
-            wt := if wt < 15 then wt else 14
-            brty := brtyI, did := I.dep.did, nad := I.dep.nad, acm := acm, brs := brs, lri := lri }
-        llcLink I.llc r.gb >>= fun l => .ok (some (held, l))
-      let tgt : Py (Option (THeld × Option LlcHeld)) :=
-        match ini with
-        | .ok (some (_, some _)) =>
-          decodeAtrReq atrReqB >>= fun q =>
-          let held : THeld :=
-            { miu := lrTable ((q.pp / 16) % 4) - 3 - boolBit (q.did > 0) 1
-              wt := rwt, brty := brtyT
-              did := if q.did > 0 then some q.did else none
-              acm := f.activeMode, lrt := lrt }
-          llcLink T.llc q.gb >>= fun l => .ok (some (held, l))
-        | _ => .ok none
-      ⟨w1 ++ w2, ini, tgt⟩
+    | (some f, acm) => handshake I T gbI gbT f acm nfcid3 rnd6
 
 /-! ## Later traffic: size of an information frame -/
 
